@@ -33,7 +33,8 @@ COVERS = ["mouette.mesh.subdivision:split_edge", "mouette.mesh.subdivision:Surfa
 
 SURF = {"tri": (3, [(0, 1, 2)]), "tri2": (4, [(0, 1, 2), (0, 2, 3)]), "quad": (4, [(0, 1, 2, 3)]), "quadtri": (5, [(0, 1, 2, 3), (1, 4, 2)]),
         "penta": (5, [(0, 1, 2, 3, 4)]), "sphere": (4, [(1, 2, 3), (0, 3, 2), (0, 1, 3), (0, 2, 1)])}
-OPS = ["triangulate", "triangulate_face", "split_face_as_fan", "loop_subdivision", "subdivide_triangles_3quads", "subdivide_triangles_6"]
+OPS = ["triangulate", "triangulate_face", "split_face_as_fan", "loop_subdivision", "subdivide_triangles_3quads", "subdivide_triangles_6",
+       "loop_subdivision(2)"]
 
 
 def snapshot(mesh, with_conn):
@@ -75,6 +76,8 @@ def apply_op(sx, ed, op, step):
         return t
     elif op == "loop_subdivision":
         ed.loop_subdivision(1)
+    elif op == "loop_subdivision(2)":
+        ed.loop_subdivision(2)      # two rounds in one call
     elif op == "subdivide_triangles_3quads":
         ed.subdivide_triangles_3quads()
     elif op == "subdivide_triangles_6":
@@ -96,6 +99,10 @@ def expected_counts(op, faces, nv, target=None):
         return nv + 1, len(faces) - 1 + len(faces[target])
     if op == "loop_subdivision":
         return tv(faces) + te(faces), 4 * tri(faces)
+    if op == "loop_subdivision(2)":
+        # second round on the refined mesh: every edge is halved (2 E1) and every triangle contributes 3 inner edges
+        v1, e1, t1 = tv(faces) + te(faces), 2 * te(faces) + 3 * tri(faces), 4 * tri(faces)
+        return v1 + e1, 4 * t1
     if op == "subdivide_triangles_3quads":
         return tv(faces) + te(faces) + tri(faces), 3 * tri(faces)
     if op == "subdivide_triangles_6":
@@ -115,6 +122,10 @@ def surface_script(names, nops, ops=OPS):
             d.vertices += [np.array([int(round(7 * c)) for c in p], dtype=np.int64) for p in meshgen.generic_coords(V)]
             d.faces += [tuple(f) for f in faces]
             mesh = _instanciate_raw_mesh_data(d)
+        elif len(set(len(f) for f in faces)) == 1 and sx.flag("built_with_from_arrays"):
+            # faces stored as rows of one index array
+            import mouette as M
+            mesh = M.mesh.from_arrays(np.array(meshgen.generic_coords(V), dtype=float), F=np.array(faces))
         else:
             mesh = meshgen.build(meshgen.generic_coords(V), (), faces)
         queried = sx.flag("connectivity_queried_before")
@@ -155,7 +166,7 @@ def surface_script(names, nops, ops=OPS):
         sx.check(R[:V] == P0, "original vertices stay in place" + tag)
         # each new vertex is the barycentre of an edge or a face of some intermediate mesh: it lies in the hull; for a
         # single operation it is exactly an edge midpoint / face barycentre of the input
-        if len(script) == 1:
+        if len(script) == 1 and script[0] != "loop_subdivision(2)":     # (two rounds: second-round centres refer to the intermediate mesh)
             cents = set()
             E0 = oracle.surface_edges(faces)
             for (a, b) in E0:
@@ -165,7 +176,7 @@ def surface_script(names, nops, ops=OPS):
                 if len(F) > 4 or script[0] in ("subdivide_triangles_3quads", "subdivide_triangles_6"):
                     pass
             # centres of triangles created by a preliminary triangulation
-            if script[0] in ("loop_subdivision", "subdivide_triangles_3quads", "subdivide_triangles_6"):
+            if script[0] in ("loop_subdivision", "loop_subdivision(2)", "subdivide_triangles_3quads", "subdivide_triangles_6"):
                 for F in faces:
                     if len(F) == 4:
                         a, b, c, d = F
